@@ -392,7 +392,7 @@ class MatchingMonitor(X.Monitor):
         def compatible(i, j):
             return ref.ref_compatible(policy, lab_e[i], lab_g[j])
 
-        blocks = ref.blocking_pairs(len(ests), len(gts), score, matchable, compatible, pairs)
+        blocks = ref.blocking_pairs(len(ests), len(gts), score, matchable, compatible, pairs, tol=max(1e-9, 2 * slack))
         if blocks:
             i, j = blocks[0]
             ctx.violate("C02", "no_blocking_pair", "a matchable %s pair is left although neither member has an equally good partner"
